@@ -216,7 +216,7 @@ META["C20"] = dict(
         "mon.restricted_number.parser.argv": g(300, 8000),
         "mon.restricted_number.parser.config": g(300, 8000),
         "st.number.accepted": g(200, 5000), "st.number.rejected": g(200, 5000),
-        "st.number.instance_of_other_restricted_type": g(300, 6000), "st.string.instance_of_other_restricted_type": g(20, 60),
+        "st.number.instance_of_other_restricted_type": g(300, 6000), "st.string.instance_of_other_restricted_type": g(20, 60), "mon.restricted_string.flag_variants": g(3, 8),
         "mon.restricted_string.cast": g(100, 300),
         "st.string.accepted": g(30, 60), "st.string.rejected": g(50, 150),
         "mon.registered.config_roundtrip": g(400, 4000),
